@@ -11,49 +11,49 @@ CHECKS = {
  "C05": dict(cat="exploration", tech="differential runtime monitoring: memory engine vs disk engine (several layouts), separate processes",
    text="The same statement sequences run on the memory engine and on 2-5 disk layouts; outcome class and row multisets (key sequence under ORDER BY) must agree. Decides the property on the sequences produced.",
    note="Identical mocked statistics on all engines (cost-based choice is C01's subject); error texts not compared; NULL literals in expressions and aggregates over constants not generated (see DESIGN).", ref="6 C05"),
- "C06": dict(cat="exploration", tech="round-trip runtime monitor over the real column builders/iterators (hooked lab), input itself is the oracle",
-   text="Random columns of every type/encoding/nullability/block size are built by the real builders and read back through the real column and row-set iterators with random start rows, batch sizes, skips and delete vectors; every returned (row_id, batch) is compared with the written values (floats by bits).",
+ "C06": dict(cat="exploration", tech="round-trip runtime monitor over the real column builders/iterators (hooked lab), input itself is the oracle; thorough tier adds sanitizer overlays of the same workload (ASan + Miri), reports with risinglight frames are violations",
+   text="Random columns of every type/encoding/nullability/block size are built by the real builders and read back through the real column and row-set iterators with random start rows, batch sizes, skips and delete vectors; every returned (row_id, batch) is compared with the written values (floats by bits, every NaN one value); value patterns include runs around the 7-bit boundaries of the run-length varint (128, 16384).",
    note="Trusted: the lab hook (feature verif) only wires the real builder/opener/iterators together. Iterator protocol as RowSetIterator uses it (batches <= fetch_hint). Fixed-width CHAR not reachable from SQL, not driven.", ref="6 C06"),
- "C07": dict(cat="exploration", tech="model-based runtime monitor with unique row ids + compactor trace events",
+ "C07": dict(cat="exploration", tech="model-based runtime monitor with unique row ids + compactor trace events; thorough tier adds sanitizer overlays of the same workload (ASan), reports with risinglight frames are violations",
    text="Histories of insert/delete/compaction/reopen on tiny row-sets; after every step the table must equal a multiset model, DELETE counts must match, compaction passes (confirmed by the compactor's hook event) must not change any scan, primary-key tables must come back in key order.",
    note="Single session. Compaction driven by the engine's own timer on a paused clock. Key order observed through SELECT * (ordered merge scan).", ref="6 C07"),
  "C12": dict(cat="exploration", tech="metamorphic runtime monitor (q vs q ORDER BY K vs LIMIT/OFFSET slices) with an independent comparator",
    text="On tables built by several inserts/deletes/compactions over 4 disk layouts (and memory), ordered results must be K-sorted permutations of the unordered result, ordered LIMIT/OFFSET must equal the slice on K, unordered LIMIT/OFFSET must have the right count and be a sub-multiset.",
    note="Reference comparator NULL-smallest; ties may permute (slices compared on key columns).", ref="6 C12"),
- "C13": dict(cat="exploration", tech="differential runtime monitoring: key-range scan vs model filter vs unoptimized run; storage-level RowSetIterator(range) vs filter(scan)",
-   text="SQL leg: ranges of every bound kind on keys of several types/positions with residuals and projections, compared with a Python model and the unoptimized statement; EXPLAIN only counts how many were pushed down. Storage leg: real RowSetIterator with KeyRange + start_rowid seek vs driver-side filtering of the written rows.",
+ "C13": dict(cat="exploration", tech="differential runtime monitoring: key-range scan vs model filter vs unoptimized run; storage-level RowSetIterator(range) vs filter(scan); thorough tier adds sanitizer overlays of the same workload (ASan), reports with risinglight frames are violations",
+   text="SQL leg: ranges of every bound kind on unique and duplicate keys of several types/positions with residuals and projections, compared with a Python model and the unoptimized statement; EXPLAIN only counts how many were pushed down. Storage leg: real RowSetIterator with KeyRange + start_rowid seek vs driver-side filtering of the written rows.",
    note="Storage leg drives the API as SecondaryTransaction::scan does (INT key = storage column 0, scanned first).", ref="6 C13"),
- "C18": dict(cat="fault_enumeration", tech="fault injection on files (bit flips, overwrites, truncations) + differential monitor against the pristine answers",
+ "C18": dict(cat="fault_enumeration", tech="fault injection on files (bit flips, overwrites, truncations) + differential monitor against the pristine answers; thorough tier adds sanitizer overlays of the same workload (ASan), reports with risinglight frames are violations",
    text="Every sampled (thorough: every) single-bit flip, byte overwrite and truncation of every .col/.idx file of a CRC32 database is applied to a copy; the copy is opened in a fresh process, every table read 3 times, a compaction pass runs, tables are read again; each read must fail or return exactly the pristine rows and untouched tables must stay readable.",
    note="One fixed database shape (2 tables, 5 row-sets, 64-byte blocks). Mutations of one file at a time. DV files and manifest belong to C04.", ref="6 C18"),
  "C20": dict(cat="exploration", tech="round-trip runtime monitor: COPY TO then COPY FROM, multiset comparison of typed cells",
    text="Random column type lists (12 types), contents with NULLs and delimiter/quote/newline characters, and CSV options; the re-imported table must equal the exported one.",
    note="Decimals compared by value. Empty strings and HEADER only through the sentinels of their known findings.", ref="6 C20"),
- "C04": dict(cat="fault_enumeration", tech="crash-point enumeration through persistence hooks (directory snapshots + torn prefixes) with recovery in fresh processes vs a model",
+ "C04": dict(cat="fault_enumeration", tech="crash-point enumeration through persistence hooks (directory snapshots + torn prefixes) with recovery in fresh processes vs a model; thorough tier adds sanitizer overlays of the same workload (ASan), reports with risinglight frames are violations",
    text="Every persistence step executed by a workload is a crash state (directory copy taken inside the hook), plus torn variants of the file/manifest record in flight; each is recovered by a fresh process and must equal model(acked) or model(acked+interrupted); the interrupted statement is retried, new statements must succeed, and crashes during the recovery itself must recover to the same state.",
    note="Process death only (no loss of un-fsynced page cache). The hook runs on the thread performing the step, so the copy is exactly what a kill at that point leaves.", ref="6 C04"),
  "C15": dict(cat="fault_enumeration", tech="fault injection at the per-operator output hook (error|panic at chunk k / end of stream) + differential against the fault-free run",
    text="For every operator of the executed plan (observed through the hook) errors and panics are injected at first/middle/last chunk and at end-of-stream, each in its own execution; the statement must fail, or return exactly the fault-free rows; failed INSERT..SELECT / DELETE must leave the target unchanged. Memory and disk engines, current- and multi-thread runtimes.",
    note="Not injected at the output of the INSERT/DELETE operator itself (post-commit). Benign = fired but result identical.", ref="6 C15"),
- "C08": dict(cat="exploration", tech="schedule-perturbed concurrency runs (hook yield points, paused clock, directed gates) + boundary history oracle + online trace specification over version-manager events",
+ "C08": dict(cat="exploration", tech="schedule-perturbed concurrency runs (hook yield points, paused clock, directed gates) + boundary history oracle + online trace specification over version-manager events; thorough tier adds sanitizer overlays of the same workload (ASan + TSan), reports with risinglight frames are violations",
    text="Storage-level readers, SQL writers, drop table, and the engine's own compactor/vacuum share one database; the handler perturbs the schedule at 11 hook points. A reader's rows must equal the model for an admissible per-session prefix of writer statements; no reader may fail; a row-set may never be selected for vacuum while a pinned epoch contains it (checked on events emitted under the version manager's lock).",
    note="Current-thread runtime with paused clock: interleavings at hook points / existing awaits. Evidence reports distinct interleaving signatures and how many readers overlapped writes.", ref="6 C08"),
- "C09": dict(cat="exploration", tech="schedule-perturbed concurrency runs with an order-independent conservation oracle (unique ids: final = acked inserts - acked deletes)",
+ "C09": dict(cat="exploration", tech="schedule-perturbed concurrency runs with an order-independent conservation oracle (unique ids: final = acked inserts - acked deletes); thorough tier adds sanitizer overlays of the same workload (ASan), reports with risinglight frames are violations",
    text="2-4 SQL clients insert unique ids and delete ids they saw acknowledged while compaction/vacuum passes run at perturbed / gated hook points inside Compactor::run and transaction start/commit; the final content (and the content after reopen) must be acked inserts minus acked deletes; failed statements must have no effect.",
    note="Conflict errors of DELETE vs compaction are unacknowledged statements. Current-thread + paused clock; long parking sleeps let whole compactor passes run inside a statement.", ref="6 C09"),
- "C10": dict(cat="exploration", tech="client-boundary history recording + offline serial-order search (DFS with memoisation) against a sequential model; multi-thread stress legs",
-   text="2-4 sessions with CREATE/DROP TABLE on colliding names, INSERT, DELETE, SELECT run concurrently on current-thread (perturbed) and multi-thread (2-16 workers) runtimes; a checker searches for a serial order consistent with session order that reproduces every acknowledged result, explains every failure and yields the final state, which must also be there after reopen; panics and stuck sessions are violations.",
-   note="Per-session order only. Search budget exhaustion is inconclusive. Multi-thread legs are stress.", ref="6 C10"),
+ "C10": dict(cat="exploration", tech="client-boundary history recording + offline serial-order search (DFS with memoisation) against a sequential model; multi-thread stress legs; thorough tier adds sanitizer overlays of the same workload (ASan + TSan), reports with risinglight frames are violations",
+   text="2-4 sessions with CREATE/DROP TABLE on colliding names, INSERT, DELETE by id and by predicate (overlapping between sessions), SELECT run concurrently on current-thread (perturbed) and multi-thread (2-16 workers) runtimes; a checker searches for a serial order consistent with session order that reproduces every acknowledged result, explains every failure and yields the final state, which must also be there after reopen; panics and stuck sessions are violations.",
+   note="Per-session order only. Search budget exhaustion is inconclusive. Multi-thread legs are stress. A history explained only by the weaker stale-delete-snapshot model is the open known finding; any other unexplained history is a violation.", ref="6 C10"),
  "C01": dict(cat="exploration", tech="differential runtime monitoring (optimizer on vs off on the live database) + single-rule translation checks executed on real data, rule attribution through the optimizer hook",
    text="Leg A: generated queries with PRAGMA enable/disable_optimizer on memory and disk layouts, real or mocked statistics; disagreements are attributed by bisecting the hook's rule deny-list. Leg B: each rewrite rule applied alone at single matches on a growing pool of plans (bound, optimized, previously validated rewrites), both sides executed by the real executor. Evidence names the rules fired, validated alone, and never reached.",
    note="Reference = unoptimized execution (no reference for subqueries in leg A). Non-executable intermediate forms are inconclusive. Derived-table select items are kept non-constant (known finding with sentinel).", ref="6 C01"),
  "C11": dict(cat="exploration", tech="differential runtime monitoring of hand-built physical plans through executor::build + independent Python nested-loop/group-by reference",
    text="For the same inputs, nested-loop / hash / merge join of every join type, simple / hash / sort aggregation and limit-over-order vs top-N are executed by the real executor on tables with chosen chunking, NULL and duplicate keys, INT vs BIGINT keys, empty sides; all implementations must agree with each other and with the reference.",
    note="Plans are built through the public Expr enum; hash/merge join of inner/outer type only with a true residual (executor contract).", ref="6 C11"),
- "C14": dict(cat="exploration", tech="kernel-level runtime monitor against an independent scalar interpreter (arbitrary raw bits under NULL) + optimizer on/off differential for constant folding",
+ "C14": dict(cat="exploration", tech="kernel-level runtime monitor against an independent scalar interpreter (arbitrary raw bits under NULL) + optimizer on/off differential for constant folding; thorough tier adds sanitizer overlays of the same workload (ASan + Miri), reports with risinglight frames are violations",
    text="Array kernels (arithmetic, comparison, AND/OR/NOT, ||, unary minus, CASE selection, integer casts) over all accepted operand type combinations on batches of 0..200 rows with NULL slots carrying arbitrary raw bits are judged row by row against a scalar SQL interpreter; overflow must be an error, x/0 NULL, a row alone must equal the row in its batch. Constant expressions: folded (optimizer on) vs run-time (off).",
    note="NaN/inf not used in comparisons. LIKE/substring/extract are not driven by the kernel leg.", ref="6 C14"),
- "C19": dict(cat="exploration", tech="law-checking runtime monitor over value pools + cross-implementation coherence through SQL on both engines",
+ "C19": dict(cat="exploration", tech="law-checking runtime monitor over value pools + cross-implementation coherence through SQL on both engines; thorough tier adds sanitizer overlays of the same workload (ASan + Miri), reports with risinglight frames are violations",
    text="Equality/order/hash laws over all pairs and triples of boundary+random pools of 13 types, comparison kernels vs DataValue::cmp, print->parse through the string cast and the CSV field parser; SQL leg: ORDER BY, <, join equality, GROUP BY, DISTINCT, MIN/MAX must induce the same relations on stored values on both engines.",
    note="Calendar values from SQL-reachable ranges. Cells compared as printed (decimals by value, -0.0 = 0.0).", ref="6 C19"),
  "C02": dict(cat="exploration", tech="differential runtime monitoring against an independent SQL implementation (SQLite) on the common dialect subset",
